@@ -213,6 +213,10 @@ fn one_run(log: &mut EvLog, seed: u64, thorough: bool, mode: &str) {
                     if k % 2 == 1 {
                         wants.push(Want::Sdn);
                     }
+                    if rng.gen_bool(0.4) {
+                        // long requests: the telegram is still on the wire when the passer's slot timer would expire
+                        wants.push(Want::Srd(if rng.gen_bool(0.5) { other } else { 100 + k as u8 }, [8usize, 40, 120, 244][rng.gen_range(0..4)]));
+                    }
                     TrafficApp {
                         appetite: rng.gen_range(0..3),
                         wants,
